@@ -298,7 +298,7 @@ def _children(app, path, wsgi, prefix):
     return sorted(urllib.parse.unquote(st.href)[len(base):] for st in r.statuses if urllib.parse.unquote(st.href) != base)
 
 
-def body_coll_ops(c0, c1, v0, ni, text):
+def body_coll_ops(c0, c1, v0, ni, text, mb=0):
     """One collection-level request (MKCOL / MKCALENDAR of a sibling, PROPPATCH of a property, DELETE of the
     neighbouring collection) next to a calendar and an address book in arbitrary valid states: a success creates /
     removes exactly the addressed collection, a refusal changes nothing, and in every case the members of the
@@ -318,18 +318,39 @@ def body_coll_ops(c0, c1, v0, ni, text):
     want_cal, want_ab, want_kids = S, A, ["cal/"]
     import xandikos.webdav as Wd_
     if op in ("MKCOL", "MKCALENDAR"):
-        r = mweb.call(app, op, home + "/" + name, prefix=prefix, wsgi=wsgi)
+        # request body (RFC 5689 extended MKCOL / RFC 4791 5.3.1): none; a valid <set> of displayname; an empty
+        # root element; the wrong root element; an unreadable body; an unknown child (strict mode refuses it)
+        root = "{DAV:}mkcol" if op == "MKCOL" else "{urn:ietf:params:xml:ns:caldav}mkcalendar"
+        kw = {}
+        if mb == 1:
+            el = Wd_.ET.Element(root)
+            prop = Wd_.ET.SubElement(Wd_.ET.SubElement(el, "{DAV:}set"), "{DAV:}prop")
+            Wd_.ET.SubElement(prop, "{DAV:}displayname").text = text
+            kw = {"xml": el, "content_type": "text/xml"}
+        elif mb == 2:
+            kw = {"xml": Wd_.ET.Element(root), "content_type": "text/xml"}
+        elif mb == 3:
+            kw = {"xml": Wd_.ET.Element("{DAV:}propertyupdate"), "content_type": "application/xml"}
+        elif mb == 4:
+            kw = {"xml": None, "content_type": "text/xml", "has_body": True}
+        elif mb == 5:
+            el = Wd_.ET.Element(root)
+            Wd_.ET.SubElement(el, "{DAV:}remove")
+            kw = {"xml": el, "content_type": "text/xml"}
+        r = mweb.call(app, op, home + "/" + name, prefix=prefix, wsgi=wsgi, **kw)
         exists = name == "cal"
+        cls = op + (":exists" if exists else "") + ":b%d:" % mb + r.status_class
+        if r.status_class == "5xx":
+            return (False, cls)  # no body of a creation request may crash the server
         if exists:
-            cls = op + ":exists"
             if r.status_class == "2xx":
                 return (False, cls)
-        else:
-            cls = op + ":" + r.status_class
-            if r.status_class == "2xx":
-                want_kids = sorted(["cal/", name + "/"])
-                if _coll_state(app, home + "/" + name, wsgi, prefix) != {}:
-                    return (False, cls)
+        elif r.status_class == "2xx":
+            want_kids = sorted(["cal/", name + "/"])
+            if _coll_state(app, home + "/" + name, wsgi, prefix) != {}:
+                return (False, cls)
+        elif mb in (0, 1, 2):
+            return (False, cls)  # a well-formed creation request for a free name is not refused
     elif op == "PROPPATCH":
         target = [mweb.CAL, mweb.AB][ni % 2]
         el = Wd_.ET.Element("{DAV:}propertyupdate")
@@ -366,13 +387,13 @@ def body_coll_ops(c0, c1, v0, ni, text):
     return (True, cls)
 
 
-def h_coll_ops(c0: bytes, c1: bytes, v0: bytes, ni: int, text: str) -> bool:
+def h_coll_ops(c0: bytes, c1: bytes, v0: bytes, ni: int, text: str, mb: int) -> bool:
     """
     pre: len(c0) <= ctx.b.blen and len(c1) <= ctx.b.blen and len(v0) <= ctx.b.blen and len(text) <= 2
-    pre: 0 <= ni < 5
+    pre: 0 <= ni < 5 and 0 <= mb <= 5
     post: _
     """
-    return run(body_coll_ops, c0, c1, v0, ni, text)
+    return run(body_coll_ops, c0, c1, v0, ni, text, mb)
 
 _B = {"quick": {"n": 2, "blen": 2}, "thorough": {"n": 3, "blen": 3}}
 _WEB_PARTS_Q = [("PUT", False, "/"), ("PUT", True, "/dav/"), ("DELETE", False, "/"), ("DELETE", True, "/"),
@@ -415,14 +436,17 @@ HARNESSES = [
                      "xandikos.store.git.GitStore.destroy", "xandikos.caldav.MkcalendarMethod.handle",
                      "xandikos.web.open_store_from_path", "xandikos.store.git.GitStore._scan_uids"]),
     Harness("coll_ops", h_coll_ops, body_coll_ops,
-            classes=[("MKCOL:2xx", ("MKCOL", "tree", "git", False, "/")), ("MKCOL:exists", ("MKCOL", "tree", "git", False, "/")),
-                     ("MKCALENDAR:2xx", ("MKCALENDAR", "bare", "git", True, "/dav/")),
+            classes=[("MKCOL:b0:2xx", ("MKCOL", "tree", "git", False, "/")), ("MKCOL:exists:b0:405", ("MKCOL", "tree", "git", False, "/")),
+                     ("MKCOL:b4:4xx", ("MKCOL", "tree", "git", False, "/")), ("MKCOL:b1:2xx", ("MKCOL", "tree", "git", False, "/")),
+                     ("MKCALENDAR:b2:2xx", ("MKCALENDAR", "bare", "git", True, "/dav/")),
+                     ("MKCALENDAR:b3:4xx", ("MKCALENDAR", "bare", "git", True, "/dav/")),
                      ("PROPPATCH:multistatus", ("PROPPATCH", "tree", "file", False, "/")),
                      ("DELETE:ab:2xx", ("DELETE", "tree", "git", True, "/")),
                      ("DELETE:missing:404", ("DELETE", "tree", "git", True, "/"))],
             parts={"quick": _COLL_PARTS_Q, "thorough": _COLL_PARTS_T}, bounds=_B, budget={"quick": 75, "thorough": 400},
             per_path_timeout={"quick": 40, "thorough": 90},
-            describe="one collection-level request (MKCOL / MKCALENDAR of a sibling, PROPPATCH of displayname / colour / "
+            describe="one collection-level request (MKCOL / MKCALENDAR of a sibling - without a body, with a valid <set>, "
+                     "an empty root, a wrong root, an unreadable body, an unknown child -, PROPPATCH of displayname / colour / "
                      "description, DELETE of the neighbouring collection or of a missing one) beside a calendar and an "
                      "address book in arbitrary valid states: exactly the addressed collection appears / disappears, a "
                      "refusal changes nothing, every member of the other collections still answers GET with its content, "
